@@ -1020,6 +1020,37 @@ class Sym:
             comp = self.tuple_component(t)
             if comp is not None:
                 return self.poly(comp)
+            b_ = strip(t[1])
+            if b_[0] == "var" and self.path_blocks is None and isinstance(t[2], int) and ("tcp", b_[1]) not in self._busy_vars:
+                # `let (a, b) = match x { .. => (e1, f1), .. => (e2, f2) }` without a concrete path: a is one of e1, e2
+                tm_ = self.an.terms
+                if not tm_.defs.partial[b_[1]] and 1 <= len(tm_.defs.whole[b_[1]]) <= 8:
+                    comps = []
+                    for d_ in tm_.defs.whole[b_[1]]:
+                        try:
+                            x_ = strip(self._def_term(d_))
+                        except Exception:
+                            comps = None
+                            break
+                        if not (x_[0] == "aggr" and x_[1] == "tuple" and t[2] < len(x_[2])):
+                            comps = None
+                            break
+                        comps.append(x_[2][t[2]])
+                    if comps:
+                        self._busy_vars.add(("tcp", b_[1]))
+                        try:
+                            ps = [self.poly(c_) for c_ in comps]
+                        finally:
+                            self._busy_vars.discard(("tcp", b_[1]))
+                        if all(p_ is not None for p_ in ps):
+                            if all(p_ == ps[0] for p_ in ps):
+                                return ps[0]
+                            nm = "phi(%s)" % "|".join(sorted(str(p_) for p_ in ps))
+                            vpos_ = b_[2] if len(b_) > 2 else None
+                            if vpos_ is not None and getattr(self, "unique_locals", False):
+                                nm = "%s@%s.%s.%d" % (nm, vpos_[0], vpos_[1], t[2])
+                            self.phis[nm] = ps
+                            return Poly.sym(nm)
         if k in ("field", "param", "index", "try", "downcast"):
             return Poly.sym(self.name(t))
         if k == "loopval":
